@@ -213,6 +213,34 @@ impl Outgoing {
     }
 }
 
+
+/// Verification hooks (`cfg(kani)` only).
+#[cfg(kani)]
+impl Outgoing {
+    pub fn verif_new(client_id: String) -> (Self, Receiver<()>) {
+        Self::new(client_id)
+    }
+
+    /// Overwrite the outbound QoS>0 window (arbitrary pre-state for inductive harnesses).
+    pub fn verif_set_window(
+        &mut self,
+        last_pkid: u16,
+        inflight: VecDeque<(u16, FilterIdx, Option<Cursor>)>,
+    ) {
+        self.last_pkid = last_pkid;
+        self.inflight_buffer = inflight;
+    }
+
+    pub fn verif_window(&self) -> (u16, &VecDeque<(u16, FilterIdx, Option<Cursor>)>) {
+        (self.last_pkid, &self.inflight_buffer)
+    }
+
+    /// Remove and return the oldest notification queued for the link.
+    pub fn verif_pop_notification(&mut self) -> Option<Notification> {
+        self.data_buffer.lock().pop_front()
+    }
+}
+
 #[cfg(test)]
 mod test {
     use super::*;
